@@ -872,6 +872,11 @@ func (handler *Handler) QueryResponseHandler(ctx context.Context, packet *Packet
 				if fieldDataPacket.data[0] == EOFPacket {
 					break
 				}
+				// The database may end the rows with an ERR_Packet (statement interrupted, deadlock, ...). A binary
+				// row starts with 0x00, never with 0xff: relay the answer instead of failing on the "row".
+				if fieldDataPacket.IsErr() {
+					break
+				}
 				newData, err := handler.processBinaryDataRow(ctx, fieldDataPacket.GetData(), fields)
 				if err != nil {
 					handler.logger.WithError(err).WithField(logging.FieldKeyEventCode, logging.EventCodeErrorProtocolProcessing).
@@ -899,6 +904,12 @@ func (handler *Handler) QueryResponseHandler(ctx context.Context, packet *Packet
 				// were sent to the client undecrypted.
 				if fieldDataPacket.isResultSetRowsEnd() {
 					dataLog.Debugln("Empty result set")
+					break
+				}
+				// The database may end the rows with an ERR_Packet (statement interrupted, deadlock, ...). 0xff is
+				// not a length prefix, so no text row starts with it: relay the answer instead of failing on the "row".
+				if fieldDataPacket.IsErr() {
+					dataLog.Debugln("ERR packet ends the rows")
 					break
 				}
 				// skip if no binary fields and nothing to decrypt
